@@ -135,7 +135,8 @@ macro_rules! must_panic {
             kani::assume($pre);
             kani::cover!(true, "REACHED-CALL");
             let _r = $call;
-            kani::cover!(true, "RETURNED");
+            // reachable only if the call returned although the same index on the slice panics
+            assert!(false, "RETURNED-WITHOUT-PANIC");
         }
     };
 }
@@ -220,22 +221,52 @@ must_panic!(c15_range_to_inclusive_panics, MAX, |s| pick() && i() >= s.len, s.h[
 
 // ---------------------------------------------------------------- C15: numeric conversions
 
-#[kani::proof]
-#[kani::unwind(12)]
-fn c15_i64_roundtrip() {
-    let x: i64 = kani::any();
-    let h = Hex::from(x);
-    assert!(h.len() == 8);
-    assert!(h.to_i64().unwrap() == x);
-    let bits: u64 = kani::any();
-    let f = f64::from_bits(bits);
-    let g = Hex::from(f);
-    assert!(g.len() == 8);
-    assert!(g.to_f64().unwrap().to_bits() == bits);
+/// `format!` is reached only where `to_i64`/`to_f64` build their error text; the text is not part
+/// of the property, so formatting is stubbed out (listed in evidence).
+fn stub_format(_args: core::fmt::Arguments<'_>) -> String {
+    String::new()
 }
 
 #[kani::proof]
 #[kani::unwind(12)]
+#[kani::stub(alloc::fmt::format, stub_format)]
+#[kani::stub(std::backtrace::Backtrace::capture, std::backtrace::Backtrace::disabled)]
+fn c15_i64_roundtrip() {
+    let x: i64 = kani::any();
+    let h = Hex::from(x);
+    assert!(h.len() == 8);
+    match h.to_i64() {
+        Ok(y) => assert!(y == x),
+        Err(e) => {
+            std::mem::forget(e);
+            assert!(false, "to_i64 fails on 8 bytes");
+        }
+    }
+    std::mem::forget(h);
+}
+
+#[kani::proof]
+#[kani::unwind(12)]
+#[kani::stub(alloc::fmt::format, stub_format)]
+#[kani::stub(std::backtrace::Backtrace::capture, std::backtrace::Backtrace::disabled)]
+fn c15_f64_roundtrip() {
+    let bits: u64 = kani::any();
+    let g = Hex::from(f64::from_bits(bits));
+    assert!(g.len() == 8);
+    match g.to_f64() {
+        Ok(y) => assert!(y.to_bits() == bits),
+        Err(e) => {
+            std::mem::forget(e);
+            assert!(false, "to_f64 fails on 8 bytes");
+        }
+    }
+    std::mem::forget(g);
+}
+
+#[kani::proof]
+#[kani::unwind(12)]
+#[kani::stub(alloc::fmt::format, stub_format)]
+#[kani::stub(std::backtrace::Backtrace::capture, std::backtrace::Backtrace::disabled)]
 fn c15_conversions_of_eight_bytes() {
     let s = any_sym(MAX);
     kani::assume(s.len == 8);
@@ -245,8 +276,41 @@ fn c15_conversions_of_eight_bytes() {
         a[k] = s.b[k];
         k += 1;
     }
-    assert!(s.h.to_i64().unwrap() == i64::from_be_bytes(a));
-    assert!(s.h.to_f64().unwrap().to_bits() == u64::from_be_bytes(a));
+    match s.h.to_i64() {
+        Ok(y) => assert!(y == i64::from_be_bytes(a)),
+        Err(e) => {
+            std::mem::forget(e);
+            assert!(false, "to_i64 fails on 8 bytes");
+        }
+    }
+    match s.h.to_f64() {
+        Ok(y) => assert!(y.to_bits() == u64::from_be_bytes(a)),
+        Err(e) => {
+            std::mem::forget(e);
+            assert!(false, "to_f64 fails on 8 bytes");
+        }
+    }
+    std::mem::forget(s);
+}
+
+#[kani::proof]
+#[kani::unwind(12)]
+#[kani::stub(alloc::fmt::format, stub_format)]
+#[kani::stub(std::backtrace::Backtrace::capture, std::backtrace::Backtrace::disabled)]
+fn c15_conversions_fail_unless_eight_bytes() {
+    let s = any_sym(MAX);
+    kani::assume(s.len != 8);
+    match s.h.to_i64() {
+        Ok(_) => assert!(false, "to_i64 accepts a length other than 8"),
+        Err(e) => std::mem::forget(e),
+    }
+    match s.h.to_f64() {
+        Ok(_) => assert!(false, "to_f64 accepts a length other than 8"),
+        Err(e) => std::mem::forget(e),
+    }
+    kani::cover!(s.len == 7, "seven bytes");
+    kani::cover!(s.len == 9, "nine bytes");
+    std::mem::forget(s);
 }
 
 // ---------------------------------------------------------------- C16: concat
